@@ -43,7 +43,9 @@ impl AHist {
         d.confirmed = confirmed;
         d.fopts = fopts.to_vec();
         d.fport = fport;
-        d.payload = payload.to_vec();
+        // a LoRa PHY payload has at most 255 bytes: MHDR + FHDR(7 + FOpts) + FPort + FRMPayload + MIC
+        let room = 255usize.saturating_sub(1 + 7 + fopts.len() + 1 + 4);
+        d.payload = payload[..payload.len().min(room)].to_vec();
         let bytes = d.build().expect("downlink build");
         self.last_down = Some(fcnt);
         self.frame_item(snr, &bytes, Some(fcnt))
@@ -124,13 +126,22 @@ pub fn oracle_c10_dev(op: &str, outs: &[String]) -> String {
     let hd: Vec<&str> = op.split(';').next().unwrap_or("").split_whitespace().collect();
     let (lead, buffer, class_c, txms): (u64, u64, bool, u64) = (hd[5].parse().unwrap_or(0), hd[6].parse().unwrap_or(0), hd[7] == "1", hd[8].parse().unwrap_or(0));
     let evs: Vec<&str> = op.split(';').skip(1).map(|s| s.trim()).collect();
-    let mut rx1d: u64 = 1000;
+    // RX1 delay in force: known from the last snapshot, unknown after an accepted downlink or a
+    // join (either may change it) until the next snapshot
+    let mut rx1d: Option<u64> = Some(1000);
+    let mut rx1d_next: Option<Option<u64>> = None;
     for (ev, o) in evs.iter().zip(outs.iter()) {
         if o == "PANIC" || o == "HANG" || o.contains("STUCK") {
             return format!("FAIL:{}", o.split_whitespace().next().unwrap_or("?"));
         }
+        if let Some(nx) = rx1d_next.take() {
+            rx1d = nx;
+        }
         if let Some(s) = parse_snap(o) {
-            rx1d = s.rx1d as u64;
+            rx1d = Some(s.rx1d as u64);
+        } else if o.contains("DownlinkReceived(") || o.contains("JoinSuccess") {
+            // this event's own windows were still scheduled with the old delay
+            rx1d_next = Some(None);
         }
         if !o.starts_with("calls=tx(") {
             continue;
@@ -138,15 +149,22 @@ pub fn oracle_c10_dev(op: &str, outs: &[String]) -> String {
         let join = ev.starts_with("ajoin");
         let calls: Vec<&str> = o["calls=".len()..].split(" => ").next().unwrap_or("").split(';').collect();
         let ats: Vec<u64> = calls.iter().filter_map(|c| c.strip_prefix("at(").and_then(|x| x.trim_end_matches(')').parse().ok())).collect();
-        let (d1, d2) = if join { (5000, 6000) } else { (rx1d, rx1d + 1000) };
-        if let Some(a) = ats.first() {
-            if *a != d1 + txms - lead {
-                return format!("FAIL:rx1-timer-{}-expected-{}", a, d1 + txms - lead);
+        let delays = if join { Some((5000, 6000)) } else { rx1d.map(|d| (d, d + 1000)) };
+        if let Some((d1, d2)) = delays {
+            if let Some(a) = ats.first() {
+                if *a != d1 + txms - lead {
+                    return format!("FAIL:rx1-timer-{}-expected-{}", a, d1 + txms - lead);
+                }
             }
-        }
-        if let Some(a) = ats.get(1) {
-            if *a != d2 + txms - lead {
-                return format!("FAIL:rx2-timer-{}-expected-{}", a, d2 + txms - lead);
+            if let Some(a) = ats.get(1) {
+                if *a != d2 + txms - lead {
+                    return format!("FAIL:rx2-timer-{}-expected-{}", a, d2 + txms - lead);
+                }
+            }
+        } else if let (Some(a), Some(b)) = (ats.first(), ats.get(1)) {
+            // delay unknown: RX2 still opens exactly one second after RX1
+            if *b != *a + 1000 {
+                return format!("FAIL:rx2-timer-{}-not-one-second-after-rx1-{}", b, a);
             }
         }
         // single-shot windows carry the buffer; continuous ones (Class C) must equal each other = RX2 parameters
@@ -265,7 +283,15 @@ pub fn gen_random_dev_history(suite: &str, region: &str, rng: &mut Rng) -> Strin
     let mut h = AHist::new(suite, region, rng.next() & 0xffffff, lead, *rng.pick(&[0u32, 40, 300]), class_c, *rng.pick(&[57u32, 1200, 0]));
     h.abp();
     let steps = 2 + rng.below(6);
+    let drs = uplink_drs(region);
+    // frame sizes around the per-data-rate MACPayload limits (19/59/61/123/133/137/250): which
+    // window a frame arrives in decides whether it fits
+    let sizes: [usize; 9] = [2, 2, 2, 9, 45, 52, 108, 125, 230];
     for _ in 0..steps {
+        if rng.chance(1, 3) {
+            let e = format!("dr {}", rng.pick(&drs));
+            h.ev(&e);
+        }
         let n = rng.below(12) as usize;
         let mut script = vec![];
         for _ in 0..n {
@@ -273,7 +299,9 @@ pub fn gen_random_dev_history(suite: &str, region: &str, rng: &mut Rng) -> Strin
                 0 => script.push("E".to_string()),
                 1 | 2 => {
                     let cmds = if rng.chance(1, 2) { some_cmds(rng, region, 15) } else { vec![] };
-                    script.push(h.auth_item(rng.range(-20, 20) as i8, 1 + rng.below(2) as u32, rng.chance(1, 3), &cmds, Some(1 + rng.below(100) as u8), &[7, 7]));
+                    let len = *rng.pick(&sizes);
+                    let payload = rng.bytes(len);
+                    script.push(h.auth_item(rng.range(-20, 20) as i8, 1 + rng.below(2) as u32, rng.chance(1, 3), &cmds, Some(1 + rng.below(100) as u8), &payload));
                 }
                 3 => {
                     let nb = rng.below(30) as usize;
@@ -328,6 +356,10 @@ impl NHist {
                             self.sending = true;
                         } else if o.contains("TimeoutRequest(") || o.contains("Err(Radio)") && o.contains("txreq(") || o.contains("UnexpectedRadioResponse") {
                             self.sending = false;
+                        }
+                        // the configuration may have changed: record it for the timing oracle
+                        if (o.contains("DownlinkReceived(") || o.contains("JoinSuccess")) && e != "snap" {
+                            return self.ev("snap");
                         }
                     }
                     _ => self.dead = true,
@@ -460,7 +492,10 @@ pub fn gen_nb_random_history(suite: &str, region: &str, rng: &mut Rng) -> String
             }
             4 => {
                 let cmds = if rng.chance(1, 2) { some_cmds(rng, region, 15) } else { vec![] };
-                h.rx_auth(rng.range(-20, 20) as i8, rng.chance(1, 3), &cmds, Some(1 + rng.below(100) as u8), &[5]);
+                // sizes around the per-data-rate MACPayload limits: the window decides whether it fits
+                let len = *rng.pick(&[1usize, 1, 1, 9, 45, 52, 108, 125, 230]);
+                let payload = rng.bytes(len);
+                h.rx_auth(rng.range(-20, 20) as i8, rng.chance(1, 3), &cmds, Some(1 + rng.below(100) as u8), &payload);
             }
             5 => {
                 let nb = rng.below(30) as usize;
@@ -468,7 +503,12 @@ pub fn gen_nb_random_history(suite: &str, region: &str, rng: &mut Rng) -> String
                 h.rx_bytes(0, &b);
             }
             6 => {
-                h.ev("njoin");
+                if rng.chance(1, 2) {
+                    h.ev("njoin");
+                } else {
+                    let e = format!("dr {}", rng.pick(&uplink_drs(region)));
+                    h.ev(&e);
+                }
             }
             _ => {
                 h.ev(&format!("ntimeout{}", script));
@@ -488,7 +528,9 @@ pub fn oracle_c10_nb(op: &str, outs: &[String]) -> String {
     let hd: Vec<&str> = op.split(';').next().unwrap_or("").split_whitespace().collect();
     let (offset, duration): (i64, i64) = (hd[5].parse().unwrap_or(0), hd[6].parse().unwrap_or(0));
     let evs: Vec<&str> = op.split(';').skip(1).map(|s| s.trim()).collect();
-    let mut rx1d: i64 = 1000;
+    // RX1 delay in force, known from the last snapshot; unknown (None) between an accepted
+    // downlink / join (which may change it) and the next snapshot
+    let mut rx1d: Option<i64> = Some(1000);
     let mut join = false;
     let mut expect_open: Option<i64> = None;
     for (ev, o) in evs.iter().zip(outs.iter()) {
@@ -496,7 +538,9 @@ pub fn oracle_c10_nb(op: &str, outs: &[String]) -> String {
             return format!("FAIL:{}", o);
         }
         if let Some(s) = parse_snap(o) {
-            rx1d = s.rx1d as i64;
+            rx1d = Some(s.rx1d as i64);
+        } else if o.contains("DownlinkReceived(") || o.contains("JoinSuccess") {
+            rx1d = None;
         }
         if ev.starts_with("njoin") && o.contains("txreq(") {
             join = true;
@@ -514,9 +558,11 @@ pub fn oracle_c10_nb(op: &str, outs: &[String]) -> String {
         };
         if let (Some(ts), Some(t)) = (ts_now, tr) {
             if o.contains("phy") || o.contains("txreq(") {
-                let d1 = if join { 5000 } else { rx1d };
-                if t != d1 + ts + offset {
-                    return format!("FAIL:rx1-opens-at-{}-expected-{}", t, d1 + ts + offset);
+                let d1 = if join { Some(5000) } else { rx1d };
+                if let Some(d1) = d1 {
+                    if t != d1 + ts + offset {
+                        return format!("FAIL:rx1-opens-at-{}-expected-{}", t, d1 + ts + offset);
+                    }
                 }
                 expect_open = Some(t);
             }
@@ -539,4 +585,35 @@ pub fn oracle_c10_nb(op: &str, outs: &[String]) -> String {
         }
     }
     "ok".into()
+}
+
+
+/// device-level ops inside a MAC-level suite: run on the real front-end (async or non-blocking
+/// Device with the scripted radio) and judged by the generic "every call returns" oracle; the
+/// step-by-step comparison with the Lean device model is what ties them to the property's model
+pub fn eval_dev_any(op: &str) -> Option<String> {
+    match op.split_whitespace().nth(1) {
+        Some("adev") => Some(eval(op, oracle_c04_dev)),
+        Some("nbdev") => Some(eval_nb(op, oracle_c04_dev)),
+        _ => None,
+    }
+}
+
+/// the device-level classes every MAC property's suite carries: random Class A/C histories on the
+/// async front-end, random histories on the non-blocking front-end, OTAA joins
+pub fn add_dev_classes(suite: &str, rng: &mut Rng, sink: &mut Sink, thorough: bool, eval: fn(&str) -> String) {
+    for region in REGIONS {
+        for _ in 0..(if thorough { 300 } else { 20 }) {
+            let op = gen_random_dev_history(suite, region, rng);
+            sink.case(&op, &eval(&op), "device-random", true);
+        }
+        for _ in 0..(if thorough { 300 } else { 20 }) {
+            let op = gen_nb_random_history(suite, region, rng);
+            sink.case(&op, &eval(&op), "nb-random", true);
+        }
+        for i in 0..(if thorough { 100 } else { 8 }) {
+            let op = gen_join_history(suite, region, rng, i % 2 == 0);
+            sink.case(&op, &eval(&op), "device-join", true);
+        }
+    }
 }
